@@ -124,3 +124,237 @@ Example C01_example_rejected :
   /\ run 1000 ex_machine ex_tables_dead_chip 5 ex_links [((0, 0), None)] = None
   /\ run 1000 ex_machine ex_tables 6 ex_links [((0, 0), None)] = None.
 Proof. exact ex_rejected. Qed.
+
+(* ================================================================================================ *)
+(** * Premise discharge: the end-to-end statement for the MODELS of table generation and minimisation
+
+   (DESIGN 4/C01, "U (premise discharge)".)  The theorems below close, for the Gallina models of
+   routing_tree_to_tables (C10, Model/Tables.v) and of the minimisers (C04, Model/Table.v), the gap that the
+   header of this file leaves open: for any set of nets with orthogonal keys and valid routing trees
+   (C03's conclusion), the generated tables -- and whatever the modelled minimisers make of them -- satisfy
+   [tree_ok], hence deliver each net's packet exactly once to each leaf core of its tree and to nothing
+   else, over live links, without drop or circulation.  What remains per instance (V) is that the real
+   router returned a valid tree where C03 is partial, and that the Python code is its model (C10/C04/C03
+   correspondence runs).
+
+   Definitions: Proofs/NetworkComposeDefs.v (definitions only).
+     [hw_entry], [hw_tables]   C10's entries/tables in C04's bit-set representation (C10's [entry_bits]);
+     [rtree_of t]              C10's tree as the hardware model's per-chip tree: the cores / endpoint links of
+                               a node are the core routes (6..23) / link routes (0..5) on which vertices hang
+                               (each once, however often a sink is listed), its children the subtrees;
+     [port_of d]               the port by which a node reached in direction d is entered (None for the root);
+     [listed e a]              entry e lists arrival port a among its sources (None = bit 24);
+     [valid_tree m t]          t is a RoutingTree, no chip occurs twice, every subtree hangs on a link 0..5
+                               that is not dead and leads to the subtree's chip, which is not dead; vertices hang
+                               on None or on a member of Routes; no hop uses a link that is an endpoint link of
+                               the tree itself;
+     [nets_ok m routes keys]   every routed net has a 32-bit key and mask with no key bit outside the mask;
+                               ORTHOGONALITY: the (key, mask) of two different nets match no common 32-bit key
+                               (nets sharing one identical key and mask are left out); every tree is valid;
+     [tree_listed]             at every node the key's first match lists the arrival port;
+     [tables_route_eq T T']    chip by chip, T' routes like T (C04's route_eq);
+     [minimised_by_some_method t t']  t' = t, or one of remove_default / oc_minimise / minimise_table
+                               returned t' for t with some target.
+   In what follows unqualified [entry], [e_route], [lookup] ... are those of Model/Table.v. *)
+Require Rig.Model.Route Rig.Spec.Route.
+Require Import Rig.Model.Tables Rig.Spec.Tables.
+Require Import Rig.Generated.GenTable Rig.Model.Table Rig.Spec.Table Rig.Model.Network Rig.Spec.Network.
+Require Import Rig.Proofs.NetworkComposeDefs Rig.Proofs.NetworkComposeMin Rig.Proofs.NetworkComposeGen
+        Rig.Proofs.NetworkCompose Rig.Proofs.NetworkComposeRoute.
+
+(* (1) tables_of_trees_hop.  If the model of routing_tree_to_tables returns tables T for nets_ok inputs,
+   then for every net, every 32-bit key k matched by the net's (key, mask), and every node of the net's tree
+   -- chip c, children kids, reached by direction d --: the route word the hardware applies to the packet
+   arriving at c through port_of d is exactly the word of the node's out-set; it is the route of the first
+   matching entry, and that entry lists the arrival port among its sources. *)
+Theorem C01_tables_of_trees_hop :
+  forall m routes net_keys T,
+    nets_ok m routes net_keys -> routing_tree_to_tables routes net_keys = ROk T ->
+    forall n t c0 k, In (n, t) routes -> zassoc n net_keys = Some c0 -> key32 k -> km_matches c0 k = true ->
+    forall d c kids, node_in none_dir t d c kids ->
+      route_at (hw_tables T) k c (port_of d) = Some (bits_of (out_set kids))
+      /\ exists e, lookup (table_at (hw_tables T) c) k = Some e
+                   /\ e_route e = bits_of (out_set kids) /\ listed e (port_of d).
+Proof. exact tables_of_trees_hop_route_at. Qed.
+
+(* ... where the word of an out-set has bit i (link 0..5, core route 6..23) set iff a child hangs on route i *)
+Theorem C01_out_set_word :
+  forall kids i, 0 <= i < 24 ->
+    (Z.testbit (bits_of (out_set kids)) i = true <-> exists t, In (Some i, t) kids).
+Proof. exact out_set_bits. Qed.
+
+(* (1) hence tree_ok holds of the converted tree w.r.t. the generated tables, with the tree's own endpoint
+   links as the net's endpoints, and every first match lists the arrival port *)
+Theorem C01_tables_of_trees_tree_ok :
+  forall m routes net_keys T,
+    nets_ok m routes net_keys -> routing_tree_to_tables routes net_keys = ROk T ->
+    forall n t c0 k, In (n, t) routes -> zassoc n net_keys = Some c0 -> key32 k -> km_matches c0 k = true ->
+      tree_ok m (hw_tables T) k (tree_exits (rtree_of t)) None (rtree_of t)
+      /\ tree_listed (hw_tables T) k None (rtree_of t).
+Proof. exact tables_of_trees_tree_ok. Qed.
+
+(* the leaves of the converted tree are the tree's: core x of chip c is a leaf iff a vertex hangs on core
+   route x + 6 at a node of chip c; link l of c is an endpoint iff a vertex hangs on link route l there;
+   without a repeated chip no leaf is repeated *)
+Theorem C01_converted_tree_leaves :
+  forall t, is_node t ->
+    (forall c x, In (c, x) (tree_cores (rtree_of t)) <->
+                 exists d kids v, node_in none_dir t d c kids /\ In (Some (x + 6), TLeaf v) kids /\ 0 <= x)
+    /\ (forall c l, In (c, l) (tree_exits (rtree_of t)) <->
+                    exists d kids v, node_in none_dir t d c kids /\ In (Some l, TLeaf v) kids /\ l < 6)
+    /\ (NoDup (tchips t) -> NoDup (tree_cores (rtree_of t)) /\ NoDup (tree_exits (rtree_of t))).
+Proof. exact converted_tree_leaves. Qed.
+
+(* table generation itself does not fail (no MultisourceRouteError) on nets_ok inputs *)
+Theorem C01_tables_of_trees_succeeds :
+  forall m routes net_keys,
+    nets_ok m routes net_keys -> NoDup (map fst routes) ->
+    exists T, routing_tree_to_tables routes net_keys = ROk T.
+Proof. exact tables_of_trees_succeeds. Qed.
+
+(* (2) minimise_preserves_hop.  tO, tT: per-chip tables before and after; the table of chip c in tT routes
+   like the one in tO (route_eq); e is the first entry of tO at c matching the 32-bit key k; the packet came
+   in through a port a that e lists (None: injected at c).  Then the hardware applies to it, on tT as on tO,
+   exactly e's route word -- whether tT has a matching entry or not. *)
+Theorem C01_minimise_preserves_hop :
+  forall tO tT c k e a,
+    key32 k ->
+    route_eq (table_at tO c) (table_at tT c) ->
+    lookup (table_at tO c) k = Some e ->
+    listed e a ->
+    route_at tT k c a = Some (e_route e) /\ route_at tO k c a = Some (e_route e).
+Proof. exact minimise_preserves_hop. Qed.
+
+(* (2) the default-routed case spelt out: tT matches nothing, so e had the single source link l, the packet
+   came in through l, and e's route -- the hardware's default route -- is exactly the opposite link *)
+Theorem C01_minimise_preserves_hop_default :
+  forall tO tT c k e a,
+    key32 k ->
+    route_eq (table_at tO c) (table_at tT c) ->
+    lookup (table_at tO c) k = Some e ->
+    listed e a ->
+    lookup (table_at tT c) k = None ->
+    exists l, a = Some l /\ 0 <= l < 6 /\ e_route e = Z.shiftl 1 (opposite l)
+              /\ route_at tT k c a = Some (Z.shiftl 1 (opposite l)).
+Proof. exact minimise_preserves_hop_default. Qed.
+
+(* (2) hence tree_ok carries over from tO to any tT that routes like it chip by chip *)
+Theorem C01_minimise_preserves_tree_ok :
+  forall m tO tT k endpoints t a,
+    key32 k ->
+    tables_route_eq tO tT ->
+    tree_ok m tO k endpoints a t ->
+    tree_listed tO k a t ->
+    tree_ok m tT k endpoints a t.
+Proof. exact minimise_preserves_tree_ok. Qed.
+
+(* the side conditions of C04's theorems hold of generated tables: chips listed once; every chip's table
+   (the empty table for a chip without one) is in minimiser_domain -- 32-bit keys and masks, non-empty
+   sources, and orthogonal because the nets' keys are *)
+Theorem C01_generated_tables_in_minimiser_domain :
+  forall m routes net_keys T,
+    nets_ok m routes net_keys -> routing_tree_to_tables routes net_keys = ROk T ->
+    NoDup (map fst (hw_tables T))
+    /\ (forall c t, In (c, t) (hw_tables T) -> minimiser_domain t)
+    /\ (forall c, minimiser_domain (table_at (hw_tables T) c)).
+Proof. exact generated_in_domain. Qed.
+
+(* (3) generic form: ANY tables that route like the generated ones chip by chip *)
+Theorem C01_end_to_end_route_eq :
+  forall m routes net_keys T tabs',
+    nets_ok m routes net_keys -> routing_tree_to_tables routes net_keys = ROk T ->
+    tables_route_eq (hw_tables T) tabs' ->
+    forall n t c0 k, In (n, t) routes -> zassoc n net_keys = Some c0 -> key32 k -> km_matches c0 k = true ->
+      tree_ok m tabs' k (tree_exits (rtree_of t)) None (rtree_of t)
+      /\ DeliveredExactly m tabs' k (root (rtree_of t)) (tree_cores (rtree_of t)) (tree_exits (rtree_of t)).
+Proof. exact end_to_end_route_eq. Qed.
+
+(* (3) the generated tables as they are *)
+Theorem C01_end_to_end_generated :
+  forall m routes net_keys T,
+    nets_ok m routes net_keys -> routing_tree_to_tables routes net_keys = ROk T ->
+    forall n t c0 k, In (n, t) routes -> zassoc n net_keys = Some c0 -> key32 k -> km_matches c0 k = true ->
+      DeliveredExactly m (hw_tables T) k (root (rtree_of t)) (tree_cores (rtree_of t)) (tree_exits (rtree_of t)).
+Proof. exact end_to_end_generated. Qed.
+
+(* (3) C01_end_to_end_models: the MODEL of routing_tree_to_tables followed by the MODEL of minimise_tables
+   (identity / default-route removal / ordered covering, first to meet the target or the shortest), for any
+   targets (None, an integer, a per-chip dictionary) with which it does not fail: a packet carrying any
+   32-bit key matched by a net's (key, mask), injected at the root chip of the net's tree, is delivered
+   exactly once to each leaf core of the tree, leaves exactly once through each of its endpoint links,
+   reaches nothing else, is not dropped, crosses only live links between live chips and does not circulate
+   (DeliveredExactly, Spec/Network.v). *)
+Theorem C01_end_to_end_models :
+  forall m routes net_keys T tg out,
+    nets_ok m routes net_keys -> routing_tree_to_tables routes net_keys = ROk T ->
+    minimise_tables (hw_tables T) tg = TablesOk out ->
+    forall n t c0 k, In (n, t) routes -> zassoc n net_keys = Some c0 -> key32 k -> km_matches c0 k = true ->
+      DeliveredExactly m out k (root (rtree_of t)) (tree_cores (rtree_of t)) (tree_exits (rtree_of t)).
+Proof. exact end_to_end_models. Qed.
+
+(* (3') any method per chip: each chip's table left alone or replaced by what remove_default, oc_minimise
+   or minimise_table returned for it with whatever target *)
+Theorem C01_end_to_end_any_method :
+  forall m routes net_keys T tabs',
+    nets_ok m routes net_keys -> routing_tree_to_tables routes net_keys = ROk T ->
+    (forall c, minimised_by_some_method (table_at (hw_tables T) c) (table_at tabs' c)) ->
+    forall n t c0 k, In (n, t) routes -> zassoc n net_keys = Some c0 -> key32 k -> km_matches c0 k = true ->
+      DeliveredExactly m tabs' k (root (rtree_of t)) (tree_cores (rtree_of t)) (tree_exits (rtree_of t)).
+Proof. exact end_to_end_any_method. Qed.
+
+(* orthogonality of two (key, mask) pairs is decided by rig's own intersect (regenerated from the source) *)
+Theorem C01_orthogonal_by_intersect :
+  forall c1 c2 : km, intersect (fst c1) (snd c1) (fst c2) (snd c2) = false -> km_disjoint c1 c2.
+Proof. exact km_disjoint_intersect. Qed.
+
+(* Bridge to C03: a set of nets whose trees (Model/Route.v's type; tree_of is the structural map to
+   Model/Tables.v's) satisfy C03's conclusion ValidTree is nets_ok, given what ValidTree does not state:
+   the tree's chips are not dead, sink routes are members of Routes, no hop uses an endpoint link of its own
+   tree; and then the cores delivered to are exactly the cores named by the routes of the net's sinks. *)
+Theorem C01_nets_ok_of_C03 :
+  forall m (rroutes : list (Z * Route.rtree)) (net_keys : list (Z * km)),
+    (forall n t, In (n, t) rroutes -> exists c, zassoc n net_keys = Some c /\ km32 c) ->
+    (forall n1 t1 n2 t2 c1 c2,
+       In (n1, t1) rroutes -> In (n2, t2) rroutes -> n1 <> n2 ->
+       zassoc n1 net_keys = Some c1 -> zassoc n2 net_keys = Some c2 -> km_disjoint c1 c2) ->
+    (forall n t, In (n, t) rroutes ->
+       (exists src sinks, Route.ValidTree m src sinks t)
+       /\ (forall c, In c (Route.chips t) -> ~ In c (Route.rm_dead_chips m))
+       /\ (forall c r v, In (c, Some r, v) (Route.tree_leaves t) -> 0 <= r < 24)
+       /\ (forall p l c, In (p, Some l, c) (Route.tree_hops t) ->
+                         ~ In (p, l) (tree_exits (rtree_of (tree_of t))))) ->
+    nets_ok (nm_of m) (map (fun nt => (fst nt, tree_of (snd nt))) rroutes) net_keys.
+Proof. exact nets_ok_of_C03. Qed.
+
+Theorem C01_delivered_cores_are_sink_cores :
+  forall m src sinks t c x,
+    Route.ValidTree m src sinks t ->
+    (In (c, x) (tree_cores (rtree_of (tree_of t))) <->
+     0 <= x /\ exists v rs, In (v, c, rs) sinks /\ In (Some (x + 6)) rs).
+Proof. exact delivered_cores_are_sink_cores. Qed.
+
+(* Every hypothesis instantiated (vm_compute) on ex_machine (3x3, dead chip (1,1), dead link north of (0,0),
+   device on link 5 of (2,0)) with three nets with keys 5/0xf, 6/0xf, 8/0xc: the model of
+   routing_tree_to_tables returns ex2_generated, the model of minimise_tables (no target) returns
+   ex2_minimised, in which the straight-through entries of nets 1 and 3 on chip (1,0) are gone (default
+   routed); C01_end_to_end_models then gives the three deliveries, and the executable checker agrees. *)
+Example C01_end_to_end_example :
+  nets_ok ex_machine ex2_routes ex2_keys
+  /\ routing_tree_to_tables ex2_routes ex2_keys = ROk ex2_generated
+  /\ minimise_tables (hw_tables ex2_generated) TNone = TablesOk ex2_minimised
+  /\ lookup (table_at ex2_minimised (1, 0)) 5 = None /\ lookup (table_at ex2_minimised (1, 0)) 9 = None
+  /\ tree_cores (rtree_of ex2_tree1) = [((2, 0), 1); ((2, 0), 2)]
+  /\ tree_exits (rtree_of ex2_tree1) = [((2, 0), 5)]
+  /\ tree_cores (rtree_of ex2_tree3) = [((0, 0), 1)]
+  /\ DeliveredExactly ex_machine ex2_minimised 5 (0, 0) [((2, 0), 1); ((2, 0), 2)] [((2, 0), 5)]
+  /\ DeliveredExactly ex_machine ex2_minimised 6 (1, 0) [((1, 0), 0); ((2, 0), 3)] []
+  /\ DeliveredExactly ex_machine ex2_minimised 9 (2, 0) [((0, 0), 1)] []
+  /\ check_delivery ex_machine ex2_minimised 5 (0, 0) [((2, 0), 1); ((2, 0), 2)] [((2, 0), 5)] = true.
+Proof. exact ex2_instance. Qed.
+
+(* the bridge from C03 is not vacuous: a tree accepted by C03's validator *)
+Example C01_C03_bridge_example :
+  Route.ValidTree (Route.perfect 3 2) (0, 0) [(7, (2, 1), [Some 6; Some 7])] ex3_tree
+  /\ valid_tree (nm_of (Route.perfect 3 2)) (tree_of ex3_tree)
+  /\ tree_cores (rtree_of (tree_of ex3_tree)) = [((2, 1), 0); ((2, 1), 1)].
+Proof. exact ex3_bridge. Qed.
